@@ -187,4 +187,29 @@ def opHist (args : List String) (impl : String) : Verdict :=
     | _, _, _, _, _ => bad "hist"
   | _ => bad "hist"
 
+/-- `flip blob bs`: flip / copy between the two orders loses and invents nothing -/
+def opFlip (args : List String) (impl : String) : Verdict :=
+  match args with
+  | [b, bs] =>
+    match blob b, bs.toNat? with
+    | some d, some bs =>
+      let tree : Tree := ⟨d.length, bs⟩
+      let pre := intactStore .preMem d bs
+      let post := intactStore .postMem d bs
+      let z := zerosN tree.outboardSize
+      let dataOf (r : Res IoErr (Store HB)) : List UInt8 := match r with | .ok s => s.data | _ => []
+      let a := dataOf (copy hf .sync pre { pre with kind := .postMem, data := z })
+      let b' := dataOf (copy hf .sync post { post with kind := .preMem, data := z })
+      let c := dataOf (copy hf .sync { pre with kind := .postMem, data := a } { pre with kind := .preMem, data := z })
+      let ioPost := dataOf (copy hf .fsm pre { pre with kind := .postIo, data := [] })
+      let back := dataOf (copy hf .fsm { pre with kind := .postIo, data := ioPost } { pre with kind := .preMem, data := z })
+      let m := s!"{dig a} {dig b'} {dig c} {dig ioPost} {dig back} 11"
+      let sPre := dig (Spec.preOutboard hf d bs)
+      let sPost := dig (Spec.postOutboard hf d bs)
+      let spec := s!"{sPost} {sPre} {sPre} {sPost} {sPre} 11"
+      { model := m, specFail := if impl == spec then none else some s!"flip / copy result differs from the directly computed outboards ({spec})",
+        nontrivial := tree.blocks > 1 }
+    | _, _ => bad "flip"
+  | _ => bad "flip"
+
 end Bao.Ops
